@@ -15,7 +15,7 @@ func init() {
 	register(&Rule{
 		ID:    "C09",
 		Title: "State pruning never deletes nodes that a live state root needs",
-		Pkgs:  []string{"data/state/storagePruningManager", "data/state", "data/trie", "process/block"},
+		Pkgs:  []string{"data/state/storagePruningManager", "data/state/storagePruningManager/evictionWaitingList", "data/state", "data/trie", "process/block"},
 		Explain: "Decides the guard structure around physical deletion. (S1) every StorageManager.Remove reachable from the pruning manager is on the `ShouldKeepHash(key, identifier) == false` branch, for the same key, " +
 			"with ShouldKeepHash's error checked. (S2) prune / replay of buffered operations is reached only on the `IsPruningBlocked() == false` branch of PruneTrie, and prune/removeFromDb/resolveBufferedHashes " +
 			"have no other callers. (S3) no other function of the loaded packages (whole module in the thorough tier) calls StorageManager.Remove. (S4) the two scheduling sites pair operations and identifiers as reviewed: " +
@@ -33,6 +33,7 @@ func constIs(v ssa.Value, k constant.Value) bool {
 
 func runC09(c *core.Ctx) {
 	c09ObsoleteOnlyIfPersisted(c)
+	c09EveryEntryConsulted(c)
 	const spmPkg = "data/state/storagePruningManager"
 	// ---- S1
 	if fn := anchorM(c, spmPkg, "storagePruningManager", "removeFromDb"); fn != nil {
@@ -311,4 +312,58 @@ func c09ObsoleteOnlyIfPersisted(c *core.Ctx) {
 		})
 	}
 	c.Floor("C09/obsolete-only-if-persisted", 4)
+}
+
+// c09EveryEntryConsulted: ShouldKeepHash protects a hash when ANY waiting entry still lists it.
+// The only entries it may pass over without looking the hash up are the old-hashes entries while
+// old hashes are being pruned (`entry is OldRoot && identifier == OldRoot`): a pass of the loop
+// that reaches the next entry without the membership lookup went through an edge on which
+// `identifier == data.OldRoot` is known. Skipping old-hashes entries for a NewRoot prune (rollback)
+// deletes nodes an older, not yet pruned root still owns.
+func c09EveryEntryConsulted(c *core.Ctx) {
+	const pkg = "data/state/storagePruningManager/evictionWaitingList"
+	fn := anchorM(c, pkg, "evictionWaitingList", "ShouldKeepHash")
+	if fn == nil || len(fn.Params) < 3 {
+		return
+	}
+	oldC := c.P.Const("data", "OldRoot")
+	if oldC == nil {
+		c.Undecided("anchor", "data.OldRoot", fn.Pos(), "constant not found")
+		return
+	}
+	oldV, _ := constInt64(oldC)
+	var loop *core.Loop
+	for _, l := range core.Loops(fn) {
+		if src := l.RangeSource(); src != nil && isFieldOf(src, "cache") {
+			loop = l
+		}
+	}
+	if loop == nil {
+		c.Undecided("C09/every-entry-consulted", "evictionWaitingList.ShouldKeepHash", fn.Pos(), "no loop over the cache of waiting entries")
+		return
+	}
+	lookup := func(in ssa.Instruction) bool {
+		lk, ok := in.(*ssa.Lookup)
+		return ok && lk.Index == ssa.Value(fn.Params[1])
+	}
+	forOld := func(b *ssa.BasicBlock, si int) bool {
+		ifi, ok := b.Instrs[len(b.Instrs)-1].(*ssa.If)
+		if !ok {
+			return false
+		}
+		bo, ok := ifi.Cond.(*ssa.BinOp)
+		if !ok || (bo.Op != token.EQL && bo.Op != token.NEQ) {
+			return false
+		}
+		isOld := func(v ssa.Value) bool { n, ok := core.ConstInt(v); return ok && n == oldV }
+		if !((bo.X == ssa.Value(fn.Params[2]) && isOld(bo.Y)) || (bo.Y == ssa.Value(fn.Params[2]) && isOld(bo.X))) {
+			return false
+		}
+		return (bo.Op == token.EQL) == (si == 0)
+	}
+	esc, path := core.PathQ{Fn: fn, FromBlk: firstBodyBlock(loop), Via: lookup, ViaEdge: forOld,
+		Target: func(in ssa.Instruction, _ *ssa.BasicBlock) bool { return in == loop.Header.Instrs[0] }}.Escape()
+	c.Check(esc == nil, "C09/every-entry-consulted", "evictionWaitingList.ShouldKeepHash", fn.Pos(),
+		"an entry is passed over without the membership lookup only while identifier == OldRoot",
+		"a waiting entry can be passed over without looking the hash up although the identifier is not known to be OldRoot ("+c.P.PathString(path)+"): when a rolled-back block's new hashes are pruned, nodes that an older, not yet pruned root still lists among its old hashes are not protected and get deleted")
 }
